@@ -3,10 +3,13 @@
 //!    the contract `index_expr_get_type__contract` that the `lex_with_lhs` obligations
 //!    (ast::field_expr::verif_kani::c04) rely on;
 //!  * `map_each_count` counts the `[*]` wherever they are;
-//!  * index typing while lexing (`IndexExpr::lex_with`, real): the index kind must match
-//!    the container - `[n]` on arrays, `["k"]` on maps, `[*]` on either, nothing on
-//!    scalars.  The name registry (`Scheme::get`, a HashMap) is replaced by its contract
-//!    for the harness's scheme.
+//!  * DRAFT, NOT REGISTERED (no result in 400 s for any case, with or without the leaf
+//!    literal lexers stubbed): index typing while lexing (`IndexExpr::lex_with`, real):
+//!    the index kind must match the container - `[n]` on arrays, `["k"]` on maps, `[*]`
+//!    on either, nothing on scalars.  The name registry (`Scheme::get`, a HashMap) is
+//!    replaced by its contract for the harness's scheme.  CBMC explores the `while let
+//!    Ok(..) = expect(input, "[")` loop to the unwinding bound because the niche-encoded
+//!    tag of the `Result` is not folded.
 use super::super::*;
 use crate::ast::parse::FilterParser;
 use crate::scheme::verif_kani::common::{field, field_ref, scheme_of};
